@@ -342,11 +342,11 @@ fn direct(case: &Value, obs: &mut Obs) -> Res {
 pub fn prop() -> Prop {
     Prop {
         id: ID,
-        rule: "documents {e: [elements], l | m.n | per-element `own`: second argument}; queries $.e[?f(A, B)] (also negated) for the five documented extension functions with A in {@.k, @, @[0], primitive literal} and B in {$.l, $.m.n, @.own}; \
+        rule: "documents {e: [elements], l | m.n | per-element `own`: second argument}; queries $.e[?f(A, B)] (also negated) for the five documented extension functions with A in {@.k, @, @[0], primitive literal} and B in {$.l, $.m.n, @.own} or a descendant / wildcard / slice / union / filter query that selects exactly the one list node (or nothing); \
                lists of arbitrary JSON values (nested, empty, duplicates), sub-multisets and near-subsets of the list, empty arrays, non-arrays, missing arguments. Oracle: set semantics with structural equality as the property states them; complement laws (in/nin, any_of/none_of) asserted on the library's own answers. \
                Non-trivial: every case (each evaluates a set function on document-dependent arguments). Distinct by (query text, document).",
         assumptions: vec![
-            "arguments are singular queries or literals (the documented use)",
+            "arguments are literals, singular queries, or other queries that select exactly one node or none (a nodelist of several nodes as argument is not judged)",
             "no integer meets a float of equal value (the statement says `equals` without fixing that case): numbers are integers only (small ones, and distinct integers beyond 2^53 that collapse in f64)",
         ],
         subs: vec![
